@@ -11,8 +11,10 @@ import (
 	"reflect"
 	"sort"
 
+	"golang.org/x/text/language"
 	"pgregory.net/rapid"
 	"seehuhn.de/go/pdf"
+	"seehuhn.de/go/xmp"
 	"seehuhn.de/go/pdf/verif/internal/gen"
 	"seehuhn.de/go/pdf/verif/internal/vt"
 )
@@ -35,6 +37,8 @@ type Program struct {
 	PageLayout    string    `json:"page_layout,omitempty"`
 	PageMode      string    `json:"page_mode,omitempty"`
 	PagesLate     bool      `json:"pages_late,omitempty"` // write the /Pages object last
+	MetaTitle     string    `json:"meta_title,omitempty"` // document-level XMP metadata (dc:title); "" = none
+	MetaPlain     bool      `json:"meta_plain,omitempty"` // MetadataStream.Plaintext
 	Actions       []Action  `json:"actions"`
 }
 
@@ -232,6 +236,15 @@ func (p *Program) Run(sink io.Writer) *Result {
 			opt.ID = append(opt.ID, append([]byte{}, id...))
 			idCopy = append(idCopy, append([]byte{}, id...))
 		}
+	}
+	if p.MetaTitle != "" {
+		packet := xmp.NewPacket()
+		dc := &xmp.DublinCore{}
+		dc.Title.Set(language.Und, p.MetaTitle)
+		if err := packet.Set(dc); err != nil {
+			panic(err)
+		}
+		opt.DocumentMetadata = &pdf.MetadataStream{Data: packet, Plaintext: p.MetaPlain}
 	}
 	fail := func(at string, err error) *Result {
 		res.WriterErr = err
@@ -683,6 +696,12 @@ func Gen(o Opts) *rapid.Generator[Program] {
 		p.PageLayout = rapid.SampledFrom([]string{"", "SinglePage", "TwoColumnLeft"}).Draw(t, "layout")
 		p.PageMode = rapid.SampledFrom([]string{"", "UseOutlines", "FullScreen"}).Draw(t, "mode")
 		p.PagesLate = rapid.Bool().Draw(t, "pageslate")
+		if v >= pdf.V1_4 && rapid.IntRange(0, 3).Draw(t, "meta") == 0 {
+			p.MetaTitle = rapid.SampledFrom(titles[1:]).Draw(t, "metatitle")
+			if !p.Encrypted() || v >= pdf.V1_6 {
+				p.MetaPlain = rapid.Bool().Draw(t, "metaplain")
+			}
+		}
 
 		objOpts := gen.ObjOpts{MaxDepth: 3, MaxStr: 3000, MaxName: 200, MaxWidth: 4}
 		if o.SmallObjects {
@@ -875,6 +894,12 @@ func (p *Program) Classes(r *Result) []string {
 	if p.HumanReadable {
 		cls = append(cls, "human-readable")
 	}
+	if p.MetaTitle != "" {
+		cls = append(cls, "has:xmp-metadata")
+		if p.MetaPlain && p.Encrypted() {
+			cls = append(cls, "has:plaintext-metadata-encrypted")
+		}
+	}
 	has := map[string]bool{}
 	var walk func(as []Action, in bool)
 	walk = func(as []Action, in bool) {
@@ -942,4 +967,67 @@ func (p *Program) NonTrivial() bool {
 		}
 	}
 	return stream && (comp || p.Encrypted() || !p.Seekable || deferred)
+}
+
+// ScrubNames removes NUL bytes from every name and dictionary key of the
+// program.  ISO 32000 7.3.5 excludes character code 0 from names, so a name
+// containing NUL cannot be written in a conforming way (C03's domain).
+func (p *Program) ScrubNames() {
+	var scrubO func(o gen.O) gen.O
+	fix := func(b gen.Hex) gen.Hex {
+		if bytes.IndexByte(b, 0) < 0 {
+			return b
+		}
+		out := append(gen.Hex{}, b...)
+		for i := range out {
+			if out[i] == 0 {
+				out[i] = 'z'
+			}
+		}
+		return out
+	}
+	scrubO = func(o gen.O) gen.O {
+		switch o.T {
+		case "name":
+			o.S = fix(o.S)
+		case "arr":
+			a := make([]gen.O, len(o.A))
+			for i := range o.A {
+				a[i] = scrubO(o.A[i])
+			}
+			o.A = a
+		case "dict":
+			var d []gen.KV
+			seen := map[string]bool{}
+			for _, kv := range o.D {
+				k := fix(kv.K)
+				if seen[string(k)] {
+					continue
+				}
+				seen[string(k)] = true
+				d = append(d, gen.KV{K: k, V: scrubO(kv.V)})
+			}
+			o.D = d
+		}
+		return o
+	}
+	var walk func(as []Action)
+	walk = func(as []Action) {
+		for i := range as {
+			a := &as[i]
+			if a.Obj != nil {
+				o := scrubO(*a.Obj)
+				a.Obj = &o
+			}
+			if a.Dict != nil {
+				o := scrubO(*a.Dict)
+				a.Dict = &o
+			}
+			for j := range a.Objs {
+				a.Objs[j] = scrubO(a.Objs[j])
+			}
+			walk(a.During)
+		}
+	}
+	walk(p.Actions)
 }
